@@ -1330,6 +1330,8 @@ func (txn *V2Transaction) DecodeFrom(d *Decoder) {
 
 	fields := d.ReadUint64()
 
+	// fields absent from the bitmap are empty, whatever the receiver held
+	*txn = V2Transaction{}
 	if fields&(1<<0) != 0 {
 		DecodeSlice(d, &txn.SiacoinInputs)
 	}
